@@ -3,9 +3,13 @@
 package transport
 
 import (
+	"fmt"
+	"runtime"
+	"sync"
 	"sync/atomic"
 	"testing"
 	"testing/synctest"
+	"time"
 )
 
 // C16 driver: the real controlBuffer (executeAndPut/put, get(false), finish, throttle)
@@ -232,7 +236,18 @@ func vCtrlBufRun(cfg []int64, ops [][]int64) (obs [][]int64, nt bool, tags []str
 	return obs, nt, tags
 }
 
+// vCtrlBufDeadline bounds the real time one case may take; a hung or spinning
+// implementation is reported at once instead of after the go test timeout.
+const vCtrlBufDeadline = 60 * time.Second
+
 func vCtrlBufExec(cfg []int64, ops [][]int64) (obs [][]int64, nt bool, tags []string) {
+	wd := time.AfterFunc(vCtrlBufDeadline, func() {
+		panic(fmt.Sprintf("verif CtrlBuf: case did not finish within %v (hang or livelock in controlBuffer) cfg=%v nops=%d", vCtrlBufDeadline, cfg, len(ops)))
+	})
+	defer wd.Stop()
+	if len(cfg) > 1 && cfg[1] == 1 {
+		return vCtrlBufRace(cfg, ops)
+	}
 	var pv any
 	synctest.Test(vCtrlBufT, func(t *testing.T) {
 		defer func() {
@@ -248,10 +263,205 @@ func vCtrlBufExec(cfg []int64, ops [][]int64) (obs [][]int64, nt bool, tags []st
 	return
 }
 
+// ---- race mode: cfg [max, 1], op [8, iterations, queued headers] -------------------
+//
+// finish() is raced, with real goroutines and the real clock, against producers and a
+// consumer on fresh control buffers.  Counted (all must be 0, whatever the schedule, if
+// finish is atomic with respect to the other methods):
+//
+//	v6  after finish() returned trfChan is non-nil, or a throttle() call does not return
+//	v7  a clientHeaders put was accepted but not orphaned exactly once / rejected but
+//	    orphaned / a header queued before finish not orphaned exactly once / list not empty
+//	v8  panic inside a controlBuffer method
+//	v10 a racing goroutine did not finish within the deadline
+type vCtrlBufRaceCnt struct{ v6, v7, v8, v10 atomic.Int64 }
+
+func vCtrlBufJoin(wg *sync.WaitGroup, d time.Duration) bool {
+	ch := make(chan struct{})
+	go func() { wg.Wait(); close(ch) }()
+	select {
+	case <-ch:
+		return true
+	case <-time.After(d):
+		return false
+	}
+}
+
+func vCtrlBufAfterFinish(c *controlBuffer, done chan struct{}, cnt *vCtrlBufRaceCnt) {
+	if c.trfChan.Load() != nil {
+		cnt.v6.Add(1)
+	}
+	ret := make(chan struct{})
+	go func() { c.throttle(); close(ret) }()
+	select {
+	case <-ret:
+	case <-time.After(300 * time.Millisecond):
+		cnt.v6.Add(1)
+	}
+	c.mu.Lock()
+	empty := c.list.isEmpty()
+	c.mu.Unlock()
+	if !empty {
+		cnt.v7.Add(1)
+	}
+	close(done) // releases a stuck throttle() so that no goroutine is leaked
+}
+
+// variant A: producers are released from inside an onOrphaned callback, i.e. while
+// finish() is cleaning up the queued stream-creation requests.
+func vCtrlBufRaceA(max, nhdr int, cnt *vCtrlBufRaceCnt) {
+	done := make(chan struct{})
+	c := newControlBuffer(done)
+	orphan := make([]atomic.Int64, nhdr+1)
+	gate := make(chan struct{})
+	var once sync.Once
+	for i := 0; i < nhdr; i++ {
+		i := i
+		c.put(&clientHeaders{streamID: uint32(i), onOrphaned: func(error) {
+			orphan[i].Add(1)
+			once.Do(func() { close(gate) })
+			for k := 0; k < 20; k++ {
+				runtime.Gosched()
+			}
+			time.Sleep(30 * time.Microsecond)
+		}})
+	}
+	var wg sync.WaitGroup
+	var lateOK atomic.Bool
+	guard := func(f func()) {
+		defer wg.Done()
+		defer func() {
+			if p := recover(); p != nil {
+				cnt.v8.Add(1)
+			}
+		}()
+		f()
+	}
+	wg.Add(2)
+	go guard(func() {
+		<-gate
+		ok, err := c.executeAndPut(func() bool { return true }, &clientHeaders{streamID: 9999, onOrphaned: func(error) { orphan[nhdr].Add(1) }})
+		lateOK.Store(ok && err == nil)
+	})
+	go guard(func() {
+		<-gate
+		for k := 0; k < max+1; k++ {
+			if c.put(&ping{}) != nil {
+				return
+			}
+		}
+	})
+	if nhdr == 0 {
+		close(gate)
+	}
+	func() {
+		defer func() {
+			if p := recover(); p != nil {
+				cnt.v8.Add(1)
+			}
+		}()
+		c.finish()
+	}()
+	if !vCtrlBufJoin(&wg, 2*time.Second) {
+		cnt.v10.Add(1)
+	}
+	for i := 0; i < nhdr; i++ {
+		if orphan[i].Load() != 1 {
+			cnt.v7.Add(1)
+		}
+	}
+	if want := int64(vB(lateOK.Load())); orphan[nhdr].Load() != want {
+		cnt.v7.Add(1)
+	}
+	vCtrlBufAfterFinish(c, done, cnt)
+}
+
+// variant B: a goroutine moves the throttled count across the limit (put, get, put, ...)
+// while finish() runs.
+func vCtrlBufRaceB(max int, cnt *vCtrlBufRaceCnt) {
+	done := make(chan struct{})
+	c := newControlBuffer(done)
+	for k := 0; k < max-1; k++ {
+		c.put(&ping{})
+	}
+	var wg sync.WaitGroup
+	var started atomic.Bool
+	wg.Add(1)
+	go func() {
+		defer wg.Done()
+		defer func() {
+			if p := recover(); p != nil {
+				cnt.v8.Add(1)
+				// getOnceLocked panics with mu held: release it so that nothing else hangs
+				c.mu.TryLock()
+				c.mu.Unlock()
+			}
+		}()
+		for k := 0; k < 4000; k++ {
+			started.Store(true)
+			if c.put(&ping{}) != nil {
+				return
+			}
+			if _, err := c.get(false); err != nil {
+				return
+			}
+		}
+	}()
+	for !started.Load() {
+		runtime.Gosched()
+	}
+	func() {
+		defer func() {
+			if p := recover(); p != nil {
+				cnt.v8.Add(1)
+			}
+		}()
+		c.finish()
+	}()
+	if !vCtrlBufJoin(&wg, 2*time.Second) {
+		cnt.v10.Add(1)
+	}
+	vCtrlBufAfterFinish(c, done, cnt)
+}
+
+func vCtrlBufRace(cfg []int64, ops [][]int64) (obs [][]int64, nt bool, tags []string) {
+	max := int(cfg[0])
+	if max < 1 {
+		max = 1
+	}
+	saved := maxQueuedControlBufferItems
+	maxQueuedControlBufferItems = max
+	defer func() { maxQueuedControlBufferItems = saved }()
+	for _, op := range ops {
+		if len(op) != 3 || op[0] != 8 {
+			continue
+		}
+		var cnt vCtrlBufRaceCnt
+		for it := int64(0); it < op[1]; it++ {
+			vCtrlBufRaceA(max, int(op[2]), &cnt)
+			vCtrlBufRaceB(max, &cnt)
+			if cnt.v6.Load()+cnt.v7.Load()+cnt.v8.Load()+cnt.v10.Load() >= 3 {
+				break // enough evidence; do not spend the deadline on a broken implementation
+			}
+		}
+		obs = append(obs, []int64{cnt.v6.Load(), cnt.v7.Load(), cnt.v8.Load(), cnt.v10.Load()})
+		nt = true
+	}
+	return obs, nt, []string{"race"}
+}
+
 // exhaustive alphabet for the thorough tier: max = 1, every op list of length 5
 var vCtrlBufAlpha = [][]int64{{1, 0, 0, 1, 0}, {2}, {6, 0}, {7, 0}, {3}}
 
 func vCtrlBufGen(r *vRand, tier string, idx int) ([]int64, [][]int64) {
+	if (tier != "thorough" && (idx == 1 || idx == 2)) || (tier == "thorough" && idx >= 3125 && idx%50 == 7) {
+		// race mode: finish() against concurrent producers/consumer, limits 1 and 2..4
+		max := int64(1)
+		if idx != 1 {
+			max = int64(1 + r.Intn(4))
+		}
+		return []int64{max, 1}, [][]int64{{8, 60, 2}, {8, 60, 0}, {8, 60, 1}}
+	}
 	if tier == "thorough" && idx < 3125 {
 		var ops [][]int64
 		k := idx
